@@ -286,7 +286,7 @@ func emit(out *kit.Out, id string, lines []string) {
 	out.Line("end")
 }
 
-// watchdog runs one service-layer case; if the REAL service does not come back within 20 s (a deadlock),
+// watchdog runs one service-layer case; if the REAL service does not come back within 60 s (a deadlock),
 // the op lines of the case are printed as an unfinished case and the process exits non-zero, which the
 // runner reports as a violation with this case as the replay.
 func watchdog(out *kit.Out, id string, ops []string) []string {
@@ -296,14 +296,14 @@ func watchdog(out *kit.Out, id string, ops []string) []string {
 	select {
 	case res := <-done:
 		return res
-	case <-time.After(20 * time.Second):
+	case <-time.After(60 * time.Second):
 		out.Line("case", id)
 		for _, l := range ops {
 			out.Line(l)
 		}
 		out.Flush()
 		pprof.Lookup("goroutine").WriteTo(os.Stderr, 1) // where everybody is blocked (diagnostic only)
-		fmt.Fprintln(os.Stderr, "HANG: the alert service did not return within 20s while executing case", id, "(deadlock); goroutines blocked in Service.mu / bufHandler.Close")
+		fmt.Fprintln(os.Stderr, "HANG: the alert service did not return within 60s while executing case", id, "(deadlock); goroutines blocked in Service.mu / bufHandler.Close")
 		os.Exit(3)
 		return nil
 	}
